@@ -46,6 +46,10 @@ pub fn verif_panic() -> !
 pub assume_specification<T: Clone> [<[T]>::to_vec] (s: &[T]) -> (r: Vec<T>)
     ensures r@.len() == s@.len(), forall|i: int| 0 <= i < s@.len() ==> call_ensures(T::clone, (&s@[i],), #[trigger] r@[i]);
 
+// char::is_ascii (assumed; std): the code point is below 128
+pub assume_specification [char::is_ascii] (c: &char) -> (r: bool)
+    ensures r == ((*c as u32) <= 0x7f);
+
 /// marker mirror of data/src/simple.rs::SimpleDataType (its supertraits are not used by the extracted code)
 pub trait SimpleDataType: Clone {}
 
